@@ -7,16 +7,19 @@ S=/verif/seeded/$ID
 W=/tmp/confirm-wt
 LOG=$S/confirm.log
 : > $LOG
+DEMO_ARGS=""; DEMO_TAIL=""
+[ -f $S/demo_args ] && DEMO_ARGS=$(cat $S/demo_args)
+[ -f $S/demo_tail ] && DEMO_TAIL=$(cat $S/demo_tail)
 if [ ! -d $W ]; then git -C /repo worktree add --detach $W HEAD -q; else git -C $W checkout -q --detach $(git -C /repo rev-parse HEAD); git -C $W checkout -q -- .; fi
 cd $W; rm -f tests/seeded_demo.rs
 echo "HEAD $(git rev-parse --short HEAD)" >> $LOG
 cp $S/seeded_demo.rs tests/seeded_demo.rs
 echo "== demo WITHOUT patch" >> $LOG
-n=0; for i in 1 2 3; do if WALRUS_QUIET=1 cargo test --offline --test seeded_demo >> $S/demo_without.$i.log 2>&1; then n=$((n+1)); fi; done
+n=0; for i in 1 2 3; do if WALRUS_QUIET=1 cargo test --offline $DEMO_ARGS --test seeded_demo $DEMO_TAIL >> $S/demo_without.$i.log 2>&1 && ! grep -q "running 0 tests" $S/demo_without.$i.log; then n=$((n+1)); fi; done
 echo "passed $n of 3" >> $LOG
 git apply $S/patch.diff || { echo "PATCH DOES NOT APPLY" >> $LOG; exit 1; }
 echo "== demo WITH patch" >> $LOG
-n=0; for i in 1 2 3 4 5; do if WALRUS_QUIET=1 cargo test --offline --test seeded_demo >> $S/demo_with.$i.log 2>&1; then n=$((n+1)); fi; done
+n=0; for i in 1 2 3 4 5; do if WALRUS_QUIET=1 cargo test --offline $DEMO_ARGS --test seeded_demo $DEMO_TAIL >> $S/demo_with.$i.log 2>&1; then n=$((n+1)); fi; done
 echo "passed $n of 5 (expected 0)" >> $LOG
 if [ -z "$NOSUITE" ]; then
   rm -f tests/seeded_demo.rs
